@@ -529,6 +529,48 @@ pub fn woff2_rewrap(file: &[u8], mutate: impl FnOnce(&mut Vec<u8>)) -> Option<Ve
     woff2_rewrap_tail(file, 0, mutate)
 }
 
+/// Make the table directory of a (non-collection) WOFF2 file claim `extra` more bytes for its
+/// last table, so that a longer decompressed stream is what the directory announces.
+pub fn woff2_claim_more(file: &[u8], extra: u32) -> Option<Vec<u8>> {
+    if be32(file, 0)? != WOF2 || be32(file, 4)? == TTCF {
+        return None;
+    }
+    let num_tables = be16(file, 12)? as usize;
+    let mut p = 48;
+    let mut last: Option<(usize, usize, u32)> = None;
+    for _ in 0..num_tables {
+        let flags = *file.get(p)?;
+        p += 1;
+        let tag_idx = flags & 0x3f;
+        let mut tag = 0;
+        if tag_idx == 0x3f {
+            tag = be32(file, p)?;
+            p += 4;
+        }
+        let version = (flags >> 6) & 3;
+        let is_glyf_loca = if tag_idx == 0x3f { tag == 0x676c_7966 || tag == 0x6c6f_6361 } else { tag_idx == 10 || tag_idx == 11 };
+        let s0 = p;
+        let orig = read_base128(file, &mut p)?;
+        last = Some((s0, p, orig));
+        let transformed = if is_glyf_loca { version == 0 } else { version != 0 };
+        if transformed {
+            let s1 = p;
+            let tl = read_base128(file, &mut p)?;
+            last = Some((s1, p, tl));
+        }
+    }
+    let (s, e, v) = last?;
+    let mut enc = Vec::new();
+    push_base128(&mut enc, v.checked_add(extra)?);
+    let mut out = Vec::with_capacity(file.len() + 4);
+    out.extend_from_slice(&file[..s]);
+    out.extend_from_slice(&enc);
+    out.extend_from_slice(&file[e..]);
+    let total = out.len() as u32;
+    out[8..12].copy_from_slice(&total.to_be_bytes());
+    Some(out)
+}
+
 /// Append an extended-metadata block of `blocks` run-length meta-blocks to a re-wrapped WOFF2
 /// file (whose metadata fields are zero) and point the header at it.
 pub fn woff2_attach_meta(file: &mut Vec<u8>, blocks: u32) {
